@@ -550,11 +550,14 @@ def evaluate(case, env):
         for c in changes.changes:
             if c.resource.path == "mod.py":
                 new = c.new_contents
+        new_tree = None
         try:
             new_tree = ast.parse(new)
         except SyntaxError as e:
-            out.violation("C19:result_does_not_parse:%s:%s" % (kind, case["goal"]), "%s\npattern %r goal %r" % (e, pattern, goal), sub)
-            return out
+            if not stmt_goal:
+                out.violation("C19:result_does_not_parse:%s:%s" % (kind, case["goal"]), "%s\npattern %r goal %r" % (e, pattern, goal), sub)
+                return out
+            parse_error = e  # judged below, once the windows are known (a recorded finding covers one-line suites)
         if stmt_goal:
             want_tree = copy.deepcopy(tree)
             k_ = len(ref_pat)
@@ -582,6 +585,9 @@ def evaluate(case, env):
                 if env.known("multiline_goal_for_statement_in_one_line_suite"):
                     out.excluded["multiline_goal_for_statement_in_one_line_suite"] += 1
                     return out
+            if new_tree is None:
+                out.violation("C19:result_does_not_parse:%s:%s" % (kind, case["goal"]), "%s\npattern %r goal %r" % (parse_error, pattern, goal), sub)
+                return out
             if not nested and not _eq(new_tree, want_tree):
                 out.violation("C19:statement_goal_substitution", "pattern %r goal %r\nexpected %s\ngot      %s" % (pattern, goal, ast.unparse(want_tree)[:400], ast.unparse(new_tree)[:400]), sub)
                 return out
